@@ -1,6 +1,7 @@
 package main
 
 import (
+	"encoding/json"
 	"flag"
 	"fmt"
 	"os"
@@ -117,6 +118,33 @@ func main() {
 		if bad > 0 {
 			os.Exit(1)
 		}
+	case "replay":
+		if len(pos) != 1 {
+			usage()
+		}
+		b, err := os.ReadFile(pos[0])
+		if err != nil {
+			fmt.Fprintln(os.Stderr, err)
+			os.Exit(2)
+		}
+		var rep map[string]interface{}
+		json.Unmarshal(b, &rep)
+		fmt.Printf("property:   %v\nobligation: %v\nsource:     %v\nclause:     %v\nstatus:     %v (%v)\n", rep["property"], rep["obligation"], rep["source"], rep["clause"], rep["status"], rep["backend"])
+		if rp, ok := rep["replay"].(map[string]interface{}); ok {
+			if w, ok := rp["witness"].(string); ok {
+				fmt.Println("re-running witness", w, "against", *repo)
+				res := runWitness(*verif, *repo, w)
+				fmt.Println(res.Output)
+				if res.Failed {
+					fmt.Println("REPLAY: the failing input still fails on this tree")
+					os.Exit(1)
+				}
+				fmt.Println("REPLAY: the witness passes on this tree")
+				return
+			}
+		}
+		fmt.Println("no failing input is attached to this obligation (no-failing-input-found); solver output:")
+		fmt.Println(rep["solver_output"])
 	case "check":
 		if len(pos) != 1 {
 			usage()
